@@ -636,6 +636,34 @@ def iterate(I, v, lazy):
     return ext().iterate(I, v, lazy)
 
 
+def live_passthrough_iter(I, v):
+    """an object whose __iter__ is exactly `for x in self.<attr>: yield x` iterates that list lazily in CPython: return the
+    list itself so that the consuming loop sees edits made to it meanwhile (generators are otherwise materialised eagerly)"""
+    import ast as _ast
+    f = I.class_attr(v.cls, "__iter__")
+    node = getattr(f, "node", None)
+    if node is None:
+        try:
+            import inspect
+            import textwrap
+            node = _ast.parse(textwrap.dedent(inspect.getsource(f))).body[0]
+        except Exception:       # noqa
+            return None
+    body = [b for b in node.body if not (isinstance(b, _ast.Expr) and isinstance(getattr(b, "value", None), _ast.Constant))]
+    if len(body) != 1 or not isinstance(body[0], _ast.For):
+        return None
+    loop = body[0]
+    if not (isinstance(loop.iter, _ast.Attribute) and isinstance(loop.iter.value, _ast.Name) and loop.iter.value.id == "self" and isinstance(loop.target, _ast.Name)):
+        return None
+    if len(loop.body) != 1 or not isinstance(loop.body[0], _ast.Expr) or not isinstance(loop.body[0].value, _ast.Yield):
+        return None
+    y = loop.body[0].value.value
+    if not (isinstance(y, _ast.Name) and y.id == loop.target.id) or loop.orelse:
+        return None
+    lst = v.fields.get(loop.iter.attr)
+    return lst if isinstance(lst, list) else None
+
+
 def inv_for(I, st, env, globs, clo, spec, it):
     return ext().inv_for(I, st, env, globs, clo, spec, it)
 
